@@ -243,8 +243,10 @@ func runCase(cs Case, st *stats) (key, expected, observed string) {
 				fmt.Sprintf("registration accepted=%v", okModel), fmt.Sprintf("accepted=%v (panic=%v)", okReal, pv)
 		}
 		if !okModel {
+			// a rejected registration (Handle panicked, the caller recovered): the set of successfully
+			// registered routes is what it was, and so must be every dispatch
 			st.tablesInvalid++
-			return "", "", "" // not a successfully registered table: outside the statement
+			continue
 		}
 		if cs.Incremental && ri < len(cs.Routes)-1 {
 			if k, e, o := serveAll(); k != "" {
